@@ -672,12 +672,13 @@ def check_basics(ctx, cr, s):
     if adt is None:
         ctx.ob({"C06"}, okey, False, "type missing")
     else:
-        want = St // 8
+        ref = (cr.get("prims") or {}).get(str(St)) or [St // 8, int_align(St)]
+        want, want_al = ref[0], ref[1]
         d = None
-        if adt.get("size") != str(want) and adt.get("size") != want:
-            d = "size %s, expected %d" % (adt.get("size"), want)
-        elif str(adt.get("align")) != str(int_align(St)):
-            d = "alignment %s, expected %d" % (adt.get("align"), int_align(St))
+        if str(adt.get("size")) != str(want):
+            d = "size %s, but u%d has size %d" % (adt.get("size"), St, want)
+        elif str(adt.get("align")) != str(want_al):
+            d = "alignment %s, but u%d has alignment %d" % (adt.get("align"), St, want_al)
         elif not adt.get("copy"):
             d = "type is not Copy"
         ctx.ob({"C06"}, okey, d is None, d or "", sample={"decl": path, "size": adt.get("size"), "align": adt.get("align"), "copy": adt.get("copy")})
